@@ -420,6 +420,48 @@ TraceNetRun ==
   /\ Rule(l, "LoopAlive", \A i \in 1 .. Len(Ev.resolver) : Ev.resolver[i][1] # "panic",
           <<"one-shot resolver panicked", Ev.resolver>>)
 
+(* SvcbApi (C10): the typed SvcParam setters of SVCB / HTTPS (RFC 9460 section 7, 14.3.2).          *)
+(* e.ops = the calls, e.params = iter_params() afterwards, e.getters = get_param(k) for some keys,   *)
+(* e.wire = the one-record message built from the record                                             *)
+SvcIdent(x) == x
+SvcAlpnId(x) == <<Len(x)>> \o x
+SvcSet(o) ==
+  CASE o[1] = "mandatory" -> <<0, CatMap(BE16, o[2])>>              \* key 0: the listed keys, 2 bytes each
+    [] o[1] = "alpn" -> <<1, CatMap(SvcAlpnId, o[2])>>             \* key 1: length-prefixed protocol ids
+    [] o[1] = "no-default-alpn" -> <<2, <<>>>>                      \* key 2: empty value
+    [] o[1] = "port" -> <<3, BE16(o[2])>>                           \* key 3: 2 bytes, network order
+    [] o[1] = "ipv4hint" -> <<4, CatMap(SvcIdent, o[2])>>           \* key 4: 4-byte addresses
+    [] o[1] = "ipv6hint" -> <<6, CatMap(SvcIdent, o[2])>>           \* key 6: 16-byte addresses
+    [] OTHER -> <<o[2], o[3]>>                                      \* set_param(key, value)
+RECURSIVE SvcSorted(_)
+SvcSorted(K) == IF K = {} THEN <<>> ELSE LET m == CHOOSE x \in K : \A y \in K : x <= y IN <<m>> \o SvcSorted(K \ {m})
+SvcParams(ops) ==
+  LET kv == [i \in 1 .. Len(ops) |-> SvcSet(ops[i])]
+      keys == {kv[i][1] : i \in 1 .. Len(ops)}
+      lastOf(k) == CHOOSE i \in 1 .. Len(ops) : kv[i][1] = k /\ \A j \in (i + 1) .. Len(ops) : kv[j][1] # k
+      sorted == SvcSorted(keys) IN
+  [j \in 1 .. Len(sorted) |-> <<sorted[j], kv[lastOf(sorted[j])][2]>>]
+
+TraceSvcbApi ==
+  /\ Ev.ev = "SvcbApi"
+  /\ LET want == SvcParams(Ev.ops)
+         d == IF Ev.wire[1] = "ok" THEN RefDecode(Ev.wire[2]) ELSE MErr("n/a") IN
+     /\ Rule(l, "NoPanic", Ev.wire[1] # "panic", <<"svcb setters", Ev.wire>>)
+     /\ Rule(l, "SvcbSetters", Ev.wire[1] = "ok" /\ \A i \in 1 .. Len(Ev.res) : Ev.res[i] = "ok", <<"setter refused", Ev.res, Ev.wire[1]>>)
+     \* the parameter list: one entry per key, the last call for a key wins, ascending key order
+     /\ Rule(l, "SvcbSetters", Ev.wire[1] # "panic" => Ev.params = want, <<"params", Ev.params, "expected", want>>)
+     /\ Rule(l, "SvcbSetters",
+             \A i \in 1 .. Len(Ev.getters) :
+                LET g == Ev.getters[i]
+                    hit == {j \in 1 .. Len(want) : want[j][1] = g[1]} IN
+                IF hit = {} THEN g[2] = "none" ELSE g[2] = "some" /\ g[3] = want[CHOOSE j \in hit : TRUE][2],
+             <<"get_param", Ev.getters>>)
+     \* and on the wire: the record of the built message carries exactly these parameters (reference decoder)
+     /\ Rule(l, "SvcbSetters",
+             Ev.wire[1] = "ok" => (d.ok /\ d.exact /\ Len(d.pkt.an) = 1 /\ d.pkt.an[1].type = Ev.t
+                                   /\ d.pkt.an[1].rd[1] = BE16(Ev.prio) /\ d.pkt.an[1].rd[3] = want),
+             <<"wire", IF d.ok THEN d.pkt.an ELSE d.why>>)
+
 (* ApiTrace (C02, C08): an API history of the builder machine (Builder.tla) was replayed    *)
 (* on a real Packet; e.states[i] is the projection of the real packet after call i       *)
 TraceApi ==
@@ -576,7 +618,7 @@ Stateless ==
            \/ TraceNameNew \/ TraceLabelNew \/ TraceNameRel
            \/ TraceTxtSplit \/ TraceTxtAttrs \/ TraceTxtRaw \/ TraceTxtLong \/ TraceCStrNew
            \/ TraceDiscover \/ TraceEscape \/ TraceDatagram \/ TraceNetRun
-           \/ TraceApi \/ TraceValueCmp \/ TraceParse \/ TracePeek \/ TraceInspect \/ TraceSinkBuild \/ TraceRoundTrip \/ TraceReparse
+           \/ TraceApi \/ TraceSvcbApi \/ TraceValueCmp \/ TraceParse \/ TracePeek \/ TraceInspect \/ TraceSinkBuild \/ TraceRoundTrip \/ TraceReparse
            \/ TraceCodeConv \/ TraceMnemonics \/ TraceMatchType \/ TraceMatchClass
 
 Next == /\ l <= Len(Rec)
